@@ -243,3 +243,6 @@ func lemmaDailySlotInDataArea(t time.Time, recordSize int32) {
 //@ lemma lemmaDailySlotInDataArea
 //@ props C30 C08
 //@ requires recordSize >= 0
+
+//@ func NewColumnSeriesMap
+//@ inline
